@@ -81,7 +81,8 @@ def oracle_timers(tr, status, actions):
     for a, e in enumerate(tr):
         if e[0] == 'abort' and e[1] in created:
             c = created[e[1]]
-            legit = any((x[0] in ('refresh_call', 'task_killed', 'user_panic', 'unwind_from', 'user_abandoned', 'panic'))
+            legit = any((x[0] in ('task_killed', 'user_panic', 'unwind_from', 'user_abandoned', 'panic'))
+                        or (x[0] == 'refresh_call' and x[1] != 'NonRestartable')
                         or (x[0] == 'user_call' and x[1] == 'stopped')
                         or (x[0] == 'user_done' and x[1] == 'started' and str(x[4]) != 'ok')
                         or (x[0] == 'task_done' and x[1] == 'loop') for x in tr[c:a])
